@@ -9,6 +9,8 @@ LEVEL = "exploration"
 RULE = ("Histories over {CONTINUATION, FIRST, LAST, UNSEGMENTED} x APID x {in-sequence, gap}. Exhaustive: every "
         "history of length 1..4 (thorough: ..5, plus length 6 for one secondary-header length) over 2 APIDs (one of "
         "them starting at count 16382 so that in-sequence steps wrap 16383->0), for secondary-header lengths 0 and 2 "
+        "and, for one APID, every history of length <= 4 (thorough <= 6) over 4 flags x {in-sequence, skip one, repeated "
+        "count, skip two} (compensating irregularities inside one group) "
         "with data lengths 1,2,3,.. by position (shorter than, equal to and longer than the secondary header). "
         "Generated (Hypothesis): histories up to length 40 over <= 4 APIDs, secondary-header lengths 0..4, data lengths "
         "1..8, arbitrary gaps, repeated counts and start counts near the wrap. Every raw packet carries a unique marker "
@@ -175,12 +177,22 @@ def history_from_index(idx, length, s):
     return {"steps": steps, "s": s, "start": [16382, 5], "apids": [100, 2047]}
 
 
-def part_exhaustive(ctx, length, s, lo, hi):
+def history_one_apid(idx, length, s):
+    """one APID, four sequence relations incl. a repeated count: {in-sequence, skip one, repeat, skip two}"""
+    steps = []
+    for i in range(length):
+        d = idx % 16
+        idx //= 16
+        steps.append({"f": d & 3, "a": 0, "gap": [0, 1, -1, 2][(d >> 2) & 3], "n": i + 1})
+    return {"steps": steps, "s": s, "start": [16381], "apids": [77]}
+
+
+def part_exhaustive(ctx, length, s, lo, hi, one_apid=False):
     for idx in range(lo, hi):
-        case = history_from_index(idx, length, s)
+        case = history_one_apid(idx, length, s) if one_apid else history_from_index(idx, length, s)
         check_history(ctx, case)
-    ctx.domain(f"histories of length {length} over 16 step kinds, secondary header {s}", hi - lo)
-    ctx.sample("exhaustive", history_from_index(lo, length, s))
+    ctx.domain(f"histories of length {length} over 16 step kinds ({'1 APID x 4 sequence relations' if one_apid else '2 APIDs x 2 sequence relations'}), secondary header {s}", hi - lo)
+    ctx.sample("exhaustive", history_one_apid(lo, length, s) if one_apid else history_from_index(lo, length, s))
 
 
 @st.composite
@@ -218,16 +230,18 @@ FLOORS = {"nontrivial": ("", 0.2)}
 def plan(tier, seed):
     tasks = []
 
-    def exh(length, s, shards):
+    def exh(length, s, shards, one_apid=False):
         total = 16 ** length
         step = (total + shards - 1) // shards
         for i in range(shards):
-            tasks.append(("exhaustive", {"length": length, "s": s, "lo": i * step, "hi": min(total, (i + 1) * step)}))
+            tasks.append(("exhaustive", {"length": length, "s": s, "lo": i * step, "hi": min(total, (i + 1) * step),
+                                         "one_apid": one_apid}))
     if tier == "quick":
         for s in (0, 2):
             for length in (1, 2, 3):
                 exh(length, s, 1)
             exh(4, s, 6)
+        exh(4, 1, 4, one_apid=True)
         for _ in range(8):
             tasks.append(("generated", {"examples": 400}))
     else:
@@ -236,6 +250,8 @@ def plan(tier, seed):
                 exh(length, s, 1)
             exh(5, s, 16)
         exh(6, 1, 64)
+        exh(5, 1, 16, one_apid=True)
+        exh(6, 3, 64, one_apid=True)
         for _ in range(16):
             tasks.append(("generated", {"examples": 6000}))
     return tasks
